@@ -93,7 +93,12 @@ func c19Cfg(r *rand.Rand, p float64, level string, serial *int) CfgMap {
 		l := []any{}
 		for i := r.Intn(3); i >= 0; i-- {
 			*serial++
-			l = append(l, fmt.Sprintf("ex@%s#%d", level, *serial))
+			if r.Intn(3) == 0 {
+				// package paths and patterns with characters that mean something to a regular expression or to YAML
+				l = append(l, pick(r, []string{"example.com/shop/internal/gen.v1", "internal/c++", "a|b", "x(1)", "^mocks$", "v1.2/api", "[gen]", "pkg\\d+", "some path", "q?", "é.ü*"}))
+			} else {
+				l = append(l, fmt.Sprintf("ex@%s#%d", level, *serial))
+			}
 		}
 		m["exclude"] = l
 	}
@@ -121,7 +126,7 @@ func (c19) Generate(c *Ctx) []any {
 		case "all", "recursive", "unroll-variadic":
 			v = true
 		case "exclude":
-			v = []any{"x/y", "z"}
+			v = []any{"x/y", "z", "internal/gen.v1", "c++"}
 		case "_anchors":
 			v = map[string]any{"a": map[string]any{"all": true}}
 		}
